@@ -31,6 +31,40 @@ theorem hexDec_hexEnc (bs : Bytes) : hexDec (hexEnc bs) = some bs := by
     simp only [hexEnc, hexDec, h1, h2, ih, h3]
 
 
+def isLowerHex (c : UInt8) : Bool := (48 ≤ c && c ≤ 57) || (97 ≤ c && c ≤ 102)
+
+def byteLower (b : UInt8) : Bool := isLowerHex (hexDigit (b >>> 4)) && isLowerHex (hexDigit (b &&& 15))
+
+theorem byteLower_nat : ∀ n, n < 256 → byteLower (UInt8.ofNat n) = true := by decide +kernel
+
+theorem byteLower_all (b : UInt8) : byteLower b = true := by
+  have h := byteLower_nat b.toNat b.toNat_lt
+  simpa using h
+
+theorem hexEnc_lower (bs : Bytes) : ∀ c ∈ hexEnc bs, isLowerHex c = true := by
+  induction bs with
+  | nil => simp [hexEnc]
+  | cons b t ih =>
+    have h := byteLower_all b
+    simp only [byteLower, Bool.and_eq_true] at h
+    intro c hc
+    simp only [hexEnc, List.mem_cons] at hc
+    rcases hc with rfl | rfl | hc
+    · exact h.1
+    · exact h.2
+    · exact ih c hc
+
+theorem hexEnc_append (a b : Bytes) : hexEnc (a ++ b) = hexEnc a ++ hexEnc b := by
+  induction a with
+  | nil => rfl
+  | cons x t ih => simp [hexEnc, ih]
+
+theorem hexEnc_length (bs : Bytes) : (hexEnc bs).length = 2 * bs.length := by
+  induction bs with
+  | nil => rfl
+  | cons x t ih => simp [hexEnc, ih]; omega
+
+
 /-! ### pending / fill -/
 
 theorem pending_eq_map (buf : Bytes) (t : List Msg) :
